@@ -43,6 +43,34 @@
 #define sexp_fx_abs(a)       (VERIF_NEGP(a) ? sexp_fx_neg(a) : a)
 #define sexp_unbox_fx_abs(a) (VERIF_NEGP(a) ? -sexp_unbox_fixnum(a) : sexp_unbox_fixnum(a))
 
+/* R12: kind tests fold for heap objects.  In CBMC's pointer encoding the integer value of a
+   pointer is object-id || offset, so the low (tag) bits of a pointer are the low bits of its
+   offset; for a pointer into a real object the offset is a symex constant while the integer
+   cast is not.  Re-expressing the immediate-tag predicates through the offset is therefore
+   an equivalence in the bit-level model, and it lets symex prune the "treat this bignum
+   pointer as a fixnum" branches instead of exploring them.  Immediates (integer-cast
+   pointers) take the original expression. */
+#ifndef KIT_NATIVE
+static inline sexp_uint_t verif_tagword(const void *x) {
+  return __CPROVER_POINTER_OBJECT(x) != __CPROVER_POINTER_OBJECT((void*)0)
+    ? (sexp_uint_t)__CPROVER_POINTER_OFFSET(x) : (sexp_uint_t)x;
+}
+#undef sexp_pointerp
+#undef sexp_fixnump
+#undef sexp_isymbolp
+#undef sexp_charp
+#undef sexp_reader_labelp
+#define sexp_pointerp(x) ((verif_tagword((const void*)(x)) & SEXP_POINTER_MASK) == SEXP_POINTER_TAG)
+#define sexp_fixnump(x)  ((verif_tagword((const void*)(x)) & SEXP_FIXNUM_MASK) == SEXP_FIXNUM_TAG)
+#define sexp_isymbolp(x) ((verif_tagword((const void*)(x)) & SEXP_IMMEDIATE_MASK) == SEXP_ISYMBOL_TAG)
+#define sexp_charp(x)    ((verif_tagword((const void*)(x)) & SEXP_EXTENDED_MASK) == SEXP_CHAR_TAG)
+#define sexp_reader_labelp(x) ((verif_tagword((const void*)(x)) & SEXP_EXTENDED_MASK) == SEXP_READER_LABEL_TAG)
+#if SEXP_USE_DISJOINT_STRING_CURSORS
+#undef sexp_string_cursorp
+#define sexp_string_cursorp(x) ((verif_tagword((const void*)(x)) & SEXP_STRING_CURSOR_MASK) == SEXP_STRING_CURSOR_TAG)
+#endif
+#endif
+
 /* header fields: tag and the bit-field word */
 #define VERIF_HDR_BYTES (offsetof(struct sexp_struct, value))
 #endif
